@@ -530,6 +530,9 @@ def applicable_ops(model, tpls=('T1', 'T2', 'T3'), names=NAMES, max_comps=3):
                 ops.append({'op': 'add', 'k': k, 'x0': 5})
                 for t in tpls:
                     ops.append({'op': 'gen', 'k': k, 'tpl': t, 'x0': 0})
+                # a generated compartment without processes: its variable is
+                # declared by the glob ports of others only, its state is given
+                ops.append({'op': 'gen', 'k': k, 'tpl': 'T0', 'x0': 5})
             if n + 1 < max_comps:
                 for j in names:
                     if j not in po and j != k:
